@@ -118,6 +118,7 @@ structure Cfg where
   assignRebinds : Bool        -- `obj.attr = <wrapper of another object/attribute>`: `validate` hands it to `make` (probed on a real entity)
   iterUnwrapped : List (IM × IterKind)
   notifyOnError : Bool        -- does `tracked_method` call `_changed_()` when the built-in method raised (try/finally)
+  refusesFirst : Bool         -- does `tracked_method` ask the owner (`_check_attr_change_`: session over / deleted) BEFORE the built-in runs
   deriving Repr, Inhabited
 
 /-- does `make` wrap the containers inside a tuple -/
@@ -655,11 +656,28 @@ def deadErr (s : St) : Err := if s.status == .over then .session else .deleted
 def notified (s : St) (n : Bool) (e : Option Err) : St × Option Err :=
   if n then (if s.status.alive then (attrChanged s, e) else (s, some (deadErr s))) else (s, e)
 
+/-- does the call go through `tracked_method` (wrapper of this object, method overridden; for arrays: past the validation) -/
+def isTrackedL (cfg : Cfg) (m : LMut) : T → Bool
+  | .node .list w _ => w && cfg.listOv.contains m.meth
+  | .node .iarr w _ => w && cfg.arrOv.contains m.meth && m.valid .iarr
+  | .node .sarr w _ => w && cfg.arrOv.contains m.meth && m.valid .sarr
+  | _ => false
+
+def isTrackedD (cfg : Cfg) (m : DMut) : T → Bool
+  | .node .dict w _ => w && cfg.dictOv.contains m.meth
+  | _ => false
+
+/-- `tracked_method` refuses before anything happens when the owner is dead (session over / deleted) -/
+def refused (cfg : Cfg) (s : St) (p : List Step) (f : T → Bool) : Bool :=
+  !s.status.alive && cfg.refusesFirst && (match getAt p s.doc with
+    | some t => f t
+    | none => false)
+
 def step (cfg : Cfg) (s : St) : Op → St × Option Err
-  | .lmut p m => match modAt (applyL cfg m) p s.doc with
+  | .lmut p m => if refused cfg s p (isTrackedL cfg m) then (s, some (deadErr s)) else match modAt (applyL cfg m) p s.doc with
       | .ok (d, n) => notified { s with doc := d } n (if m.raises then some .type else none)
       | .error (e, n) => notified s n (some e)
-  | .dmut p m => match modAt (applyD cfg m) p s.doc with
+  | .dmut p m => if refused cfg s p (isTrackedD cfg m) then (s, some (deadErr s)) else match modAt (applyD cfg m) p s.doc with
       | .ok (d, n) => notified { s with doc := d } n none
       | .error (e, n) => notified s n (some e)
   | .read p => (s, if (getAt p s.doc).isSome then none else some .nav)
